@@ -259,6 +259,30 @@ Section Init.
       + rewrite (pf_count fs pf v (Hpf eq_refl) Hc). apply factors_with_var_pos in Hc. lia.
       + destruct Hsh as [H|H]; [discriminate|lia].
   Qed.
+
+  (* counting factors, with or without prior factors: what the code does now *)
+  Theorem init_cavity_factors include fs pf priors dflt i v :
+    (include = true -> pf_ok fs pf = true) ->
+    i < length (graph_factors include fs pf) -> In v (nth i (graph_factors include fs pf) []) ->
+    (include = true \/ 2 <= length (filter (has_var v) fs)) ->
+    get v (cavity i (init_state false include fs pf priors dflt)) = Some (prior_of G priors v dflt).
+  Proof.
+    intros Hpf Hi Hv Hsh.
+    assert (Hc : In v (concat fs)) by (apply (in_graph_in_concat include fs pf i v Hpf Hi Hv)).
+    apply init_cavity_general; auto.
+    - rewrite graph_count. unfold prior_count.
+      destruct include; [rewrite (pf_count fs pf v (Hpf eq_refl) Hc)|]; reflexivity.
+    - rewrite graph_count. destruct include.
+      + rewrite (pf_count fs pf v (Hpf eq_refl) Hc). apply factors_with_var_pos in Hc. lia.
+      + destruct Hsh as [H|H]; [discriminate|lia].
+  Qed.
+
+  Theorem init_cavity_current include fs pf priors dflt i v :
+    (include = true -> pf_ok fs pf = true) ->
+    i < length (graph_factors include fs pf) -> In v (nth i (graph_factors include fs pf) []) ->
+    (include = true \/ 2 <= length (filter (has_var v) fs)) ->
+    get v (cavity i (init_state code_counts_occurrences include fs pf priors dflt)) = Some (prior_of G priors v dflt).
+  Proof. exact (init_cavity_factors include fs pf priors dflt i v). Qed.
 End Init.
 
 (* ---------- history accessors ---------- *)
@@ -335,6 +359,46 @@ Section History.
     length (filter h_success h) <= 1 -> latest_result G true h = latest_result G false h.
   Proof.
     unfold latest_result. intro H. destruct (filter h_success h) as [|x [|y l]]; simpl in *; try reflexivity; lia.
+  Qed.
+
+  Theorem latest_result_current_spec h d :
+    latest_result G code_latest_result_first h =
+    match latest_successful G h with Some k => Some (h_token (nth k h d)) | None => None end.
+  Proof. exact (latest_result_last_spec h d). Qed.
+
+  (* previous_successful / previous_update: the most recent entry satisfying p BEFORE the latest one *)
+  Definition previous_pos (p : hentry -> bool) (h : list hentry) : option nat := last_but_one_opt (positions G p 0 h).
+
+  Lemma last_but_one_snoc {A} (l : list A) (x : A) : last_but_one_opt (l ++ [x]) = last_opt l.
+  Proof. unfold last_but_one_opt, last_opt. rewrite rev_unit. destruct (rev l); reflexivity. Qed.
+
+  Lemma previous_pos_snoc p h e :
+    previous_pos p (h ++ [e]) = if p e then latest_pos p h else previous_pos p h.
+  Proof.
+    unfold previous_pos, latest_pos. rewrite positions_app. simpl.
+    destruct (p e); [apply last_but_one_snoc|rewrite app_nil_r; reflexivity].
+  Qed.
+
+  Theorem previous_pos_spec p h :
+    previous_pos p h =
+    match latest_pos p h with Some k => latest_pos p (firstn k h) | None => None end.
+  Proof.
+    induction h as [|e h IH] using rev_ind; [reflexivity|].
+    rewrite previous_pos_snoc, latest_pos_snoc. destruct (p e) eqn:E.
+    - rewrite firstn_app, Nat.sub_diag, firstn_all. simpl. rewrite app_nil_r. reflexivity.
+    - rewrite IH. destruct (latest_pos p h) as [k|] eqn:L; [|reflexivity].
+      pose proof (latest_pos_spec p h e) as S. rewrite L in S. destruct S as [Hk _].
+      rewrite firstn_app. replace (k - length h) with 0 by lia. simpl. rewrite app_nil_r. reflexivity.
+  Qed.
+
+  Lemma all_some_spec {A} (l : list (option A)) :
+    match all_some l with
+    | Some r => map Some r = l
+    | None => In None l
+    end.
+  Proof.
+    induction l as [|[x|] l IH]; simpl; auto.
+    destruct (all_some l); simpl; [rewrite IH; reflexivity|right; exact IH].
   Qed.
 
   Lemma history_of_snoc i j (e : hentry) log :
@@ -428,4 +492,75 @@ Section Run.
       rewrite Hn. unfold Model.own, Model.project. apply replace_nth_other.
       apply (Hj (i, e)). left. reflexivity.
   Qed.
+
+  Lemma chain_split dl st a b st' : chain dl st (a ++ b) st' -> exists mid, chain dl st a mid /\ chain dl mid b st'.
+  Proof.
+    revert st. induction a as [|[i e] a IH]; intros st H; simpl in *.
+    - exists st. split; [reflexivity|exact H].
+    - destruct H as [Hn H]. destruct (IH _ H) as [mid [A B]]. exists mid. split; [split; assumption|exact B].
+  Qed.
+
+  (* the factor's message in the final approximation is the one recorded by its latest entry *)
+  Theorem chain_latest_entry dl st a i e b st' :
+    chain dl st (a ++ (i, e) :: b) st' -> (forall x, In x b -> fst x <> i) -> own i st' = own i (h_state e).
+  Proof.
+    intros H Hb. destruct (chain_split dl st a ((i, e) :: b) st' H) as [mid [_ C]].
+    simpl in C. destruct C as [_ C]. apply (chain_local dl (h_state e) b st' C i Hb).
+  Qed.
+
+  (* what one visit records when the scripted optimiser returns (new, Status(success, result=token)) *)
+  Lemma visit_fit dl sc i st log s t n :
+    nth (visit_count G i log) (nth i sc []) ORaise = OFit s t n ->
+    visit G gadd gopp gscale gvalid dl sc i st log =
+    (step G gadd gopp gscale gvalid i dl n st,
+     {| h_success := s && all_valid G gadd gopp gscale gvalid dl (cavity i st) (own i st) n;
+        h_updated := updated_flag G gadd gopp gscale gvalid dl (cavity i st) (own i st) n;
+        h_token := Some t;
+        h_state := step G gadd gopp gscale gvalid i dl n st |}).
+  Proof. intro H. unfold visit. rewrite H. reflexivity. Qed.
+
+  (* a successful status implies every projection of the visit was proper *)
+  Lemma visit_success_all_valid dl sc i st log s t n :
+    nth (visit_count G i log) (nth i sc []) ORaise = OFit s t n ->
+    h_success (snd (visit G gadd gopp gscale gvalid dl sc i st log)) = true ->
+    s = true /\ all_valid G gadd gopp gscale gvalid dl (cavity i st) (own i st) n = true.
+  Proof. intros H S. rewrite (visit_fit dl sc i st log s t n H) in S. simpl in S. apply andb_true_iff in S. exact S. Qed.
 End Run.
+
+Section RunExact.
+  Variable G : Type.
+  Variable gadd : G -> G -> G.
+  Variable gopp : G -> G.
+  Variable gzero : G.
+  Variable gscale : Qc -> G -> G.
+  Variable gvalid : G -> bool.
+  Hypothesis GL : group_laws G gadd gopp gzero.
+
+  Lemma all_valid_get dl cavd last (new : mf G) v nw :
+    all_valid G gadd gopp gscale gvalid dl cavd last new = true -> get G v new = Some nw ->
+    cand_valid G gvalid (cand G gadd gopp gscale dl cavd last v nw) = true.
+  Proof.
+    unfold all_valid. induction new as [|[w x] new IH]; simpl; [discriminate|].
+    intros H Hg. apply andb_true_iff in H. destruct H as [H1 H2].
+    destruct (Nat.eqb w v) eqn:E; [|apply IH; assumption].
+    apply Nat.eqb_eq in E. subst w. injection Hg as <-. exact H1.
+  Qed.
+
+  (* inside EPOptimiser.run: a visit of factor i with delta >= 1 that is recorded as a success leaves the
+     global approximation equal to the distribution the optimiser returned, on every variable of the factor *)
+  Theorem visit_exact dl sc i st log s t n v nw :
+    i < length st -> is_full dl = true ->
+    nth (visit_count G i log) (nth i sc []) ORaise = OFit s t n ->
+    h_success (snd (visit G gadd gopp gscale gvalid dl sc i st log)) = true ->
+    get G v n = Some nw -> In v (keys G (own G i st)) ->
+    get G v (global G gadd (h_state (snd (visit G gadd gopp gscale gvalid dl sc i st log)))) = Some nw
+    /\ h_token (snd (visit G gadd gopp gscale gvalid dl sc i st log)) = Some t.
+  Proof.
+    intros Hi Hf Hs Hok Hn Hv.
+    destruct (visit_success_all_valid G gadd gopp gscale gvalid dl sc i st log s t n Hs Hok) as [_ Hall].
+    rewrite (visit_fit G gadd gopp gscale gvalid dl sc i st log s t n Hs). simpl. split; [|reflexivity].
+    pose proof (all_valid_get dl _ _ n v nw Hall Hn) as Hc.
+    unfold cand_valid, cand in Hc. rewrite Hf in Hc. simpl in Hc.
+    apply (update_exact G gadd gopp gzero gscale gvalid GL i dl n st v nw Hi Hf Hn Hv Hc).
+  Qed.
+End RunExact.
